@@ -170,6 +170,38 @@ func Table() map[string]*Property {
 		Trusted: oTrusted,
 		Note:    "for every path of hash.field / genStatement / genFunc: two runs on arguments related by EqTop (EqC) take the same branches, iterate alike and return the same number",
 	})
+	genLevel := func(r driver.ObResult) bool {
+		switch r.Kind {
+		case "nopanic", "G1", "G2", "G3", "G4", "typecheck", "hole-integrity":
+			return true
+		}
+		return false
+	}
+	plugins := []string{"all", "any", "apply", "clone", "compare", "compose", "contains", "curry", "deepcopy", "do", "dup", "equal", "filter", "flip", "fmap", "gostring",
+		"hash", "intersect", "join", "keys", "max", "mem", "min", "pipeline", "set", "sort", "takewhile", "toerror", "traverse", "tuple", "uncurry", "union", "unique"}
+	var c09 []string
+	for _, pl := range plugins {
+		c09 = append(c09, pl+".gen.Add")
+	}
+	// Generate of the plugins whose Generate accepts every type list their Add accepts without further narrowing
+	for _, pl := range []string{"all", "any", "compare", "contains", "equal", "filter", "fmap", "hash", "intersect", "join", "keys", "max", "mem", "min", "set", "sort", "takewhile", "traverse", "tuple", "union", "unique"} {
+		c09 = append(c09, pl+".gen.Generate")
+	}
+	// the emitting functions whose contracts carry the domain their Add has checked
+	c09 = append(c09, "apply.gen.Generate", "curry.gen.genFuncFor", "uncurry.gen.genFuncFor", "flip.gen.genFuncFor", "toerror.gen.genFuncFor", "compose.gen.genError",
+		"equal.gen.field", "equal.gen.genStatement", "compare.gen.field", "compare.gen.genStatement", "hash.gen.field", "hash.gen.genStatement")
+	add(&Property{
+		ID:     "C09",
+		Groups: []Group{{Layer: "O", NoVC: true, Funcs: c09, Only: genLevel}},
+		Assumptions: []string{
+			"PARTIAL. Decided: on every path of every plugin's Add (33 plugins, argument lists of 0..3 types of every kind, incl. tuple types) and of the generator functions listed, the generator code does not panic (index, type assertion, nil, Tuple.At), an error created on the path reaches the function's result (G2), callee preconditions hold (G1), indentation is balanced (G3), and on every non-error path the emitted text parses (G4), keeps its operand holes intact and type-checks under the prelude synthesised from the path condition",
+			"NOT decided here: termination / hangs; the content of the messages; derive/find.go, derive/load.go and main.go (go/packages, flag handling); pkg.Generate's 'Generator Error' wrapping (Layer D covers generate.go's file effects under C07/C10 only); Generate of clone, deepcopy, gostring, do, dup, pipeline, curry, flip, uncurry, toerror (their inner generator functions are under contract where listed)",
+			"that Generate is only called with type lists its Add accepted or another plugin requested through GetFuncName is an assumption",
+			"A-cfg, A-param; arities enumerated up to 3",
+		},
+		Trusted: oTrusted,
+		Note:    "generator-level no-panic and error-propagation obligations plus the text-level obligations of the emitted code; the open findings shared with C01 (emitted code that does not parse or type-check although goderive exits 0) are listed as known findings",
+	})
 	add(&Property{
 		ID:     "C18",
 		Groups: []Group{{Layer: "O", Funcs: []string{"mem.gen.genFunc"}, Only: semantic}},
